@@ -328,15 +328,11 @@ def sinks_of_path(p, param_types, F=None):
                     return x == ln or (x[0] == 'len' and ln[0] == 'len' and affine.canon_coll(x) == affine.canon_coll(ln)) or \
                         affine.canon_coll(x) == affine.canon_coll(ln)
                 for c, v in ivx.cons:
-                    if c[0] != 'bin' or c[1] not in ('Lt', 'Ge', 'Gt', 'Le'):
+                    if c[0] != 'bin' or c[1] not in ('Lt', 'Le'):
                         continue
-                    truth = (v != 0) if isinstance(v, int) else True
-                    # idx < len in any of its four spellings
-                    if (c[1] == 'Lt' and truth and c[2] == idx and same_len(c[3])) or \
-                            (c[1] == 'Ge' and not truth and c[2] == idx and same_len(c[3])) or \
-                            (c[1] == 'Gt' and truth and c[3] == idx and same_len(c[2])) or \
-                            (c[1] == 'Le' and not truth and c[3] == idx and same_len(c[2])):
-                        hazard = False
+                    for x in (c[2], c[3]):
+                        if same_len(x) and absint.holds(ivx.cons, '<', idx, x):
+                            hazard = False
                 sk = Sink('index', fn, 'index', "[%s] of len %s" % (describe(idx, 50), describe(ln, 50)), site,
                           "index in [%s, %s], length in [%s, %s]" % (fmt(ilo), fmt(ihi), fmt(llo), fmt(lhi)), hazard, ti or tl)
                 sk.keyrole = "idx " + "+".join(leaves(idx)) + " len " + "+".join(leaves(ln))
